@@ -820,6 +820,210 @@ def r4_render_cache(run):
                 run.check(is_reset or is_render, 'the rendered-media cache is written only by a reset to unset or by a render site', fn, n)
 
 
+# ---------------------------------------------------------------------------
+# R6 the form serializer's quoting function escapes '%' (and the form delimiters) unconditionally
+# ---------------------------------------------------------------------------
+# parse_query_string percent-decodes every name and value, so the writer must
+# be injective on text: a literal '%' has to leave as '%25' whatever follows
+# it.  urllib's quote/quote_plus do that; so do falcon's plain value encoders.
+# The `*_check_escaped` encoders do not: text that merely LOOKS escaped
+# ('%41%42') is passed through and reads back as something else ('AB').
+
+URI_MOD = 'falcon.util.uri'
+ENCODER_FACTORY = URI_MOD + '._create_str_encoder'
+_URLLIB_QUOTERS = {'urllib.parse.quote_plus': '+', 'urllib.parse.quote': '/', 'urllib.parse.quote_from_bytes': '/'}
+_FORM_SPECIAL = '%&=+'
+
+
+def _encoder_table(p) -> Dict[str, Dict[str, bool]]:
+    """falcon.util.uri.<name> -> {'is_value': bool, 'check_is_escaped': bool}, read off the factory calls."""
+    fac = p.func(ENCODER_FACTORY)
+    a = fac.node.args
+    pos = a.posonlyargs + a.args
+    names = [x.arg for x in pos]
+    if 'check_is_escaped' not in names or 'is_value' not in names:
+        raise AnchorError('%s: parameters is_value/check_is_escaped not found (%s)' % (ENCODER_FACTORY, names))
+    m = p.module(URI_MOD)
+    dflt = {}
+    for arg, d in zip(pos[len(pos) - len(a.defaults):], a.defaults):
+        dflt[arg.arg] = p.fold(m, d)
+    # the heuristic is what the flag switches on: a branch under the flag that returns the input unchanged
+    enc = fac.nested.get('encoder')
+    inner = enc.node if enc is not None else fac.node
+    passthrough = False
+    for n in ast.walk(inner):
+        if isinstance(n, ast.If) and any(isinstance(x, ast.Name) and x.id == 'check_is_escaped' for x in ast.walk(n.test)):
+            iparams = [x.arg for x in inner.args.args] if inner is not fac.node else []
+            if any(isinstance(r, ast.Return) and isinstance(r.value, ast.Name) and r.value.id in iparams for r in ast.walk(n)):
+                passthrough = True
+    if not passthrough:
+        raise UnknownIdiom('%s: the check_is_escaped flag no longer guards a pass-through return of the input' % ENCODER_FACTORY)
+    table = {}
+    for name, v in sorted(m.consts.items()):
+        if isinstance(v, ast.Call) and isinstance(v.func, (ast.Name, ast.Attribute)):
+            t = p.resolve_expr(m, v.func)
+            if t != ENCODER_FACTORY:
+                continue
+            bound = dict(dflt)
+            if len(v.args) > len(names) or any(isinstance(x, ast.Starred) for x in v.args) or any(k.arg is None for k in v.keywords):
+                raise UnknownIdiom('%s = %s' % (name, short(v, 60)))
+            for nm, x in zip(names, v.args):
+                bound[nm] = p.fold(m, x)
+            for k in v.keywords:
+                bound[k.arg] = p.fold(m, k.value)
+            if not all(isinstance(bound.get(k), bool) for k in ('is_value', 'check_is_escaped')):
+                raise UnknownIdiom('%s = %s: factory arguments do not fold to booleans' % (name, short(v, 60)))
+            table[URI_MOD + '.' + name] = {'is_value': bound['is_value'], 'check_is_escaped': bound['check_is_escaped']}
+    if not any(t['check_is_escaped'] for t in table.values()) or not any(not t['check_is_escaped'] for t in table.values()):
+        raise AnchorError('%s: expected plain and check_is_escaped encoders among the factory products, found %s' % (URI_MOD, sorted(table)))
+    return table
+
+
+def r6_form_quoting(run):
+    p = run.project
+    table = _encoder_table(p)
+    run.ok('encoder table read off the _create_str_encoder(...) calls: heuristic (pass text that looks escaped through) = %s; plain = %s' % (
+        sorted(k.rsplit('.', 1)[1] for k, t in table.items() if t['check_is_escaped']),
+        sorted(k.rsplit('.', 1)[1] for k, t in table.items() if not t['check_is_escaped'])), p.module(URI_MOD).name, 'encoder table')
+    uc = p.cls('falcon.media.urlencoded.URLEncodedFormHandler')
+    ser = uc.methods.get('serialize')
+    if ser is None:
+        raise AnchorError('URLEncodedFormHandler.serialize not found')
+    run.use(ser)
+    RW = "resp.media = {'pattern': '%41%42'} is written as b'pattern=%41%42' and reads back as {'pattern': 'AB'}"
+
+    def qual_of(f: Func, e):
+        """Func | qualified str | None for a callable expression"""
+        if isinstance(e, (ast.Name, ast.Attribute)):
+            return p.resolve_callable(f, e)
+        return None
+
+    def verdict_encoder(q: str):
+        """True ok / (False, why) / None not an encoder we know"""
+        if q in _URLLIB_QUOTERS:
+            return True
+        t = table.get(q)
+        if t is None:
+            return None
+        if t['check_is_escaped']:
+            return (False, "%s leaves text that looks percent-encoded unescaped ('%%' is not always written as %%25)" % q.rsplit('.', 1)[1])
+        if not t['is_value']:
+            return (False, '%s leaves the form delimiters & = + unescaped' % q.rsplit('.', 1)[1])
+        return True
+
+    def safe_const(f: Func, e, own) -> Optional[str]:
+        """the folded `safe` argument, or None when it is the enclosing quoting function's own parameter handed on"""
+        x = e.value if isinstance(e, ast.Starred) else e
+        if isinstance(x, ast.Name) and x.id in own:
+            return None
+        v = p.fold(f.module, e, None, f) if not isinstance(e, ast.Starred) else UNKNOWN
+        if not isinstance(v, (str, bytes)):
+            raise UnknownIdiom('%s: safe argument %s does not fold' % (f.qual, short(e, 40)))
+        return v.decode('latin-1') if isinstance(v, bytes) else v
+
+    def check_safe(f: Func, call: ast.Call, e, own, what: str):
+        v = safe_const(f, e, own)
+        if v is not None:
+            run.check(not (set(v) & set(_FORM_SPECIAL)), '%s: no character that is special to the form reader (%% & = +) is exempted from escaping' % what,
+                      f, call, witness=['safe=%r' % v], runtime_witness=RW)
+
+    def scan_body(f: Func, root, own):
+        """encoders applied inside root (a helper / lambda body): [(True | (False, why), call)]; `own` = parameters of that helper"""
+        found = []
+        for n in ast.walk(root):
+            if not isinstance(n, ast.Call):
+                continue
+            t = qual_of(f, n.func)
+            q = t.qual if isinstance(t, Func) else t
+            v = verdict_encoder(q) if isinstance(q, str) else None
+            if v is None:
+                continue
+            found.append((v, n))
+            if q in _URLLIB_QUOTERS:
+                if len(n.args) > 1:
+                    check_safe(f, n, n.args[1], own, 'form quoting helper')
+                for k in n.keywords:
+                    if k.arg == 'safe':
+                        check_safe(f, n, k.value, own, 'form quoting helper')
+        return found
+
+    def lambda_params(e: ast.Lambda):
+        la = e.args
+        return ({x.arg for x in la.posonlyargs + la.args + la.kwonlyargs} | ({la.vararg.arg} if la.vararg else set())
+                | ({la.kwarg.arg} if la.kwarg else set()))
+
+    def judge_quoter(f: Func, e, depth=0):
+        """quote_via expression -> list of (verdict, node, func)"""
+        if isinstance(e, ast.Lambda):
+            found = scan_body(f, e.body, lambda_params(e))
+            if not found:
+                raise UnknownIdiom('%s: quoting lambda %s applies no known encoder' % (f.qual, short(e, 60)))
+            return [(v, n, f) for v, n in found]
+        if isinstance(e, ast.Call) and qual_of(f, e.func) == 'functools.partial' and e.args:
+            for k in e.keywords:
+                if k.arg == 'safe':
+                    check_safe(f, e, k.value, set(), 'form serializer (partial)')
+            return judge_quoter(f, e.args[0], depth)
+        if isinstance(e, ast.Name) and depth == 0:
+            # a local bound once in serialize
+            binds = [a.value for a in walk_no_nested(f.node) if isinstance(a, ast.Assign) and len(a.targets) == 1
+                     and isinstance(a.targets[0], ast.Name) and a.targets[0].id == e.id]
+            if len(binds) == 1:
+                return judge_quoter(f, binds[0], depth)
+            if binds:
+                raise UnknownIdiom('%s: %s is bound more than once' % (f.qual, e.id))
+        t = qual_of(f, e)
+        if isinstance(t, Func):
+            if depth >= 1:
+                raise UnknownIdiom('%s: quoting function %s is reached through more than one level of helper' % (ser.qual, t.qual))
+            found = scan_body(t, t.node, set(t.params()))
+            # one further level only for plain forwarding helpers is not followed: unknown
+            if not found:
+                raise UnknownIdiom('%s: quoting helper %s applies no known encoder' % (ser.qual, t.qual))
+            return [(v, n, t) for v, n in found]
+        if isinstance(t, str):
+            v = verdict_encoder(t)
+            if v is not None:
+                return [(v, e, f)]
+        raise UnknownIdiom('%s: quote_via=%s cannot be resolved to a known quoting function' % (ser.qual, short(e, 60)))
+
+    calls = [c for c in walk_no_nested(ser.node) if isinstance(c, ast.Call) and qual_of(ser, c.func) == 'urllib.parse.urlencode']
+    if not calls:
+        raise UnknownIdiom('%s: no urllib.parse.urlencode(...) call (form text produced some other way)' % ser.qual)
+    for c in calls:
+        if any(k.arg is None for k in c.keywords) or any(isinstance(a, ast.Starred) for a in c.args):
+            raise UnknownIdiom('%s: %s' % (ser.qual, short(c, 60)))
+        given = dict(zip(('query', 'doseq', 'safe', 'encoding', 'errors', 'quote_via'), c.args))
+        given.update({k.arg: k.value for k in c.keywords})
+        qv = given.get('quote_via')
+        if qv is None:
+            run.ok("form serializer: names and values are quoted by urlencode's default quote_plus ('%' always becomes %25)", ser.loc(c), c)
+        else:
+            for v, node, fn in judge_quoter(ser, qv):
+                if v is True:
+                    run.ok("form serializer: the quoting function escapes '%' and the form delimiters unconditionally", fn.loc(node), node)
+                else:
+                    run.fail('form serializer: the quoting function is not injective on text - ' + v[1], fn, node, where=fn.loc(node),
+                             witness=['%s  %s' % (ser.loc(c), short(c, 80))], runtime_witness=RW)
+        sv = given.get('safe')
+        if sv is None:
+            run.ok('form serializer: no character is exempted from escaping (safe defaults to empty)', ser.loc(c), 'safe: default')
+        else:
+            check_safe(ser, c, sv, set(), 'form serializer')
+    # an encoder applied to names/values by serialize itself, outside urlencode's quoting
+    n_direct = 0
+    for n in walk_no_nested(ser.node):
+        if isinstance(n, ast.Call):
+            t = qual_of(ser, n.func)
+            q = t.qual if isinstance(t, Func) else t
+            v = verdict_encoder(q) if isinstance(q, str) else None
+            if v is not None and v is not True and table.get(q, {}).get('check_is_escaped'):
+                n_direct += 1
+                run.fail('form serializer: applies an encoder that is not injective on text - ' + v[1], ser, n, runtime_witness=RW)
+    if not n_direct:
+        run.ok('form serializer: applies no *_check_escaped encoder to names or values itself', ser.loc(), ser.qual)
+
+
 def check(run):
     run.assume('E5 assumptions (see C09/C11); the configured JSON loads() raises ValueError subclasses only (json.JSONDecodeError is one)')
     run.assume('urllib.parse.urlencode emits pure ASCII')
@@ -832,3 +1036,4 @@ def check(run):
     from . import c11 as _c11
 
     run.rule('R5', _c11._safe(_c11.r9_same_case_form), 'handler resolution compares requested type and registered keys in one case form (shared with C11 R9)', floor=2)
+    run.rule('R6', _safe(r6_form_quoting), "the form serializer's quoting function escapes '%' and the form delimiters unconditionally (no *_check_escaped encoder)", floor=4)
